@@ -109,6 +109,9 @@ def gen_kw(r, entry, declared, fam, malformed):
     pool_ok = list(declared)
     kws = []
     used = set()
+    if fam == "globalrepo" and r.chance(0.55):      # most GlobalRepo loads name the project directory
+        used.add("project_root")
+        kws.append(["project_root", r.weighted([(100, 8), (101, 3), (103, 1 if malformed else 0)])])
     for _ in range(n):
         cls = r.weighted([("decl", 10), ("undecl", 3 if malformed else 1), ("reserved", 3 if malformed else 1)])
         if cls == "decl" and pool_ok:
@@ -148,11 +151,11 @@ def gen_case(r, idx, malformed=False):
     # files
     bases = ["a", "b", "c", "d", "e"]
     files = []
-    nroot = r.range(1, 4)
+    nroot = r.range(2, 5) if fam != "none" else r.range(1, 3)
     for b in bases[:nroot]:
         files.append({"path": "root/%s.m" % b, "base": b, "uris": [], "prim": False})
     if fam == "globalrepo":
-        for b in r.sample(bases[:4], r.range(0, 3)):
+        for b in r.sample(bases[:nroot], r.range(0, nroot)):
             files.append({"path": "cwd/%s.m" % b, "base": b, "uris": [], "prim": False})
     if is_sp(prov):
         case["search_path"] = ["lib"]
@@ -182,7 +185,7 @@ def gen_case(r, idx, malformed=False):
         if fam != "importuri":
             return []
         us = []
-        for _ in range(r.weighted([(0, 2), (1, 4), (2, 3), (3, 1)])):
+        for _ in range(r.weighted([(0, 2), (1, 4), (2, 4), (3, 2)])):
             kind = r.weighted([("name", 12), ("wild", 0 if is_sp(prov) else 2), ("missing", 1 if malformed else 0)])
             if kind == "name":
                 us.append(r.choice([f["base"] for f in files]) + ".m")
@@ -364,6 +367,8 @@ def oracle(case, out):
             bad.append(where + ": all parameters are declared but the load was refused: %s" % o.get("exc"))
             continue
         if o["kind"] != "loaded":
+            if expect_ok(case, op):
+                bad.append(where + ": every parameter is declared and every file of the import closure exists, yet the load failed: %s" % o.get("exc"))
             continue
         want = [[key, repr_of(spec)] for key, spec in model_kw]
         for d in o["new"]:
@@ -389,6 +394,44 @@ def oracle(case, out):
             elif born.get((d["op"], d["file"])) != d["params"]:
                 bad.append(where + ": model of %s created by op %s changed its parameters: %s -> %s" % (d["file"], d["op"], born.get((d["op"], d["file"])), d["params"]))
     return bad
+
+
+def expect_ok(case, op):
+    """True when nothing but the parameters could make this load fail: the entry file exists, the input is a
+    string, every import pattern of every model of the closure denotes existing non-primitive files.  (A walk
+    over the directory tree written independently of the Coq model; None = cannot tell.)"""
+    fam = family(case["prov"])
+    files = case["files"]
+    byp = {f["path"]: i for i, f in enumerate(files)}
+    if not op["is_str"]:
+        return None
+    if op["entry"] == "file":
+        if op["path"] not in byp or files[byp[op["path"]]]["prim"]:
+            return None
+        start = [(os.path.dirname(op["path"]), files[byp[op["path"]]]["uris"])]
+    else:
+        if op["content"]["prim"]:
+            return None
+        if fam == "importuri" and op["entry"] == "str" and op["content"]["uris"]:
+            return None
+        start = [(os.path.dirname(op["path"]) if op["entry"] == "strfn" else None, op["content"]["uris"])]
+    root = dict((k, v) for k, v in op["kwv"]).get("project_root")
+    todo, done = list(start), set()
+    while todo:
+        dirname, uris = todo.pop()
+        for rec in imports_of(case, dirname, uris):
+            ids = rec["plain"]
+            if rec["rel"] and root is not None:
+                ids = dict((v, x) for v, x in rec["rooted"]).get(root)
+            if ids is None:
+                return None
+            for i in ids:
+                if files[i]["prim"]:
+                    return None
+                if i not in done:
+                    done.add(i)
+                    todo.append((os.path.dirname(files[i]["path"]), files[i]["uris"]))
+    return True
 
 
 def repr_of(spec):
@@ -466,10 +509,34 @@ def evaluate(chk, cases, tag):
     return failures, disagreements
 
 
+def enum_cases():
+    """thorough tier: every import graph on three files (each file imports any subset of {a, b, c}: 512 graphs),
+    loaded through a.m with one parameter, alternating provider flavour and global repository."""
+    cases = []
+    bases = ["a", "b", "c"]
+    for g in range(512):
+        prov = ["importuri", "importuri_fqn", "rrel", "importuri_sp"][g % 4]
+        case = {"prov": prov, "grepo": bool((g // 4) % 2), "dirs": ["root", "cwd", "lib"], "search_path": ["lib"] if is_sp(prov) else [],
+                "patterns": [], "adds": ["p1"]}
+        files = []
+        for i, b in enumerate(bases):
+            bits = (g >> (3 * i)) & 7
+            files.append({"path": "root/%s.m" % b, "base": b, "uris": [bases[j] + ".m" for j in range(3) if bits >> j & 1], "prim": False})
+        case["files"] = files
+        case["ops"] = [{"entry": "file", "is_str": True, "fn_keyword": False, "path": "root/a.m", "kwv": [["p1", g % 7], ["project_root", 100]]},
+                       {"entry": "file", "is_str": True, "fn_keyword": False, "path": "root/c.m", "kwv": [["p1", 6]]}]
+        fill_texts(case)
+        finalize(case)
+        cases.append(case)
+    return cases
+
+
 def run(chk):
     chk.prove([params_tr.translate])
-    n = 900 if chk.thorough else 220
+    n = 2200 if chk.thorough else 160
     cases = corpus_cases()
+    if chk.thorough:
+        cases += enum_cases()
     for i in range(n):
         r = chk.rng.split(i)
         cases.append(gen_case(r, i, malformed=(i % 4 == 3)))
